@@ -15,12 +15,12 @@ from __future__ import annotations
 import ast
 
 from core.flow import Flow, Spec
-from core.guards import TRUE, atom, atoms_of, f_or, implies
-from core.loader import AnalysisError, ClassInfo, FuncInfo, Repo, ancestors, calls_in, norm, own_nodes, parent
+from core.guards import TRUE, atom, atoms_of, implies
+from core.loader import AnalysisError, FuncInfo, Repo, ancestors, norm, own_nodes, parent
 from core.report import Result
 
 from .c05_views import family, all_nodes, assignments_of, dview, key_of, productions, single_value, where_of
-from .common import conds, dotted, guard_formula, stmt_of, types_of, where
+from .common import guard_formula, stmt_of, types_of, where
 
 MATCHER = "pytestarch.rule_assessment.rule_check.rule_matcher"
 LAYER_DETECTOR = "pytestarch.rule_assessment.rule_check.layer_rule_violation_detector"
@@ -246,9 +246,11 @@ def check_regex_resolution_per_evaluation(repo: Repo, res: Result) -> None:
         res.undecide("C05.R7", construct, "no call of ModuleNameConverter reachable in the inlined view of RuleMatcher.match", where(match, match.node))
         return
     stateful = []
+    # state that match() itself writes: a condition on it makes the conversion depend on earlier evaluations
+    written = {norm(n) for n in all_nodes(vm) if isinstance(n, ast.Attribute) and isinstance(n.ctx, ast.Store)}
     for c in convs:
         g = guard_formula(vm, c)
-        state_atoms = sorted(a for a in atoms_of(g) if "self." in a)
+        state_atoms = sorted(a for a in atoms_of(g) if any(w in a for w in written) or "getattr(self" in a or "hasattr(self" in a)
         if state_atoms and not implies(TRUE, g):
             stateful.append((c, state_atoms))
         if ev is not None and not any(isinstance(x, ast.Name) and x.id == ev for a in [*c.args, *[k.value for k in c.keywords]] for x in ast.walk(a)):
